@@ -68,8 +68,10 @@ func (e *Enc) preamble() {
 		for _, w := range []int{8, 16, 32, 64} {
 			half := new(big.Int).Lsh(big.NewInt(1), uint(w-1))
 			full := new(big.Int).Lsh(big.NewInt(1), uint(w))
-			vc.decl(fmt.Sprintf("(define-fun wrapS%d ((x Int)) Int (- (mod (+ x %s) %s) %s))", w, half, full, half))
-			vc.decl(fmt.Sprintf("(define-fun wrapU%d ((x Int)) Int (mod x %s))", w, full))
+			hi := new(big.Int).Sub(half, big.NewInt(1))
+			umax := new(big.Int).Sub(full, big.NewInt(1))
+			vc.decl(fmt.Sprintf("(define-fun wrapS%d ((x Int)) Int (ite (and (<= (- %s) x) (<= x %s)) x (- (mod (+ x %s) %s) %s)))", w, half, hi, half, full, half))
+			vc.decl(fmt.Sprintf("(define-fun wrapU%d ((x Int)) Int (ite (and (<= 0 x) (<= x %s)) x (mod x %s)))", w, umax, full))
 		}
 		vc.decl("(define-fun tdiv ((a Int) (b Int)) Int (ite (>= a 0) (ite (> b 0) (div a b) (- (div a (- b)))) (ite (> b 0) (- (div (- a) b)) (div (- a) (- b)))))")
 		vc.decl("(define-fun tmod ((a Int) (b Int)) Int (- a (* b (tdiv a b))))")
